@@ -532,6 +532,9 @@ func init() {
 	reg("strconv.Itoa", func(in *Interp, fn *ssa.Function, args []Value) Value {
 		t := tt(args[0])
 		if !t.IsConst() {
+			if s, ok := in.fmtDecimal(t, nil); ok { // opt-in "fmt:decimal": exact digits (intr_fmtdecimal.go)
+				return s
+			}
 			return in.decimalString(t, "strconv.Itoa")
 		}
 		return StrOf(strconv.FormatInt(t.SignedVal(), 10))
@@ -539,6 +542,9 @@ func init() {
 	reg("strconv.FormatInt", func(in *Interp, fn *ssa.Function, args []Value) Value {
 		t, b := tt(args[0]), tt(args[1])
 		if !t.IsConst() && b.IsConst() && b.U == 10 {
+			if s, ok := in.fmtDecimal(t, nil); ok { // opt-in "fmt:decimal": exact digits (intr_fmtdecimal.go)
+				return s
+			}
 			return in.decimalString(t, "strconv.FormatInt")
 		}
 		if !t.IsConst() || !b.IsConst() {
